@@ -155,6 +155,18 @@ Theorem C17_maxArray_first_max : forall (A K E : Type) (keyf : A -> outcome K E)
     (forall j, j < m -> c (kf (nth j arr d)) (kf (nth m arr d)) = Lt).
 Proof. intros A K E keyf cmp kf c arr d TP. exact (maxArray_first_max A K E keyf cmp kf c TP arr d). Qed.
 
+(* ================= no panic, no fuel exhaustion ================= *)
+
+(* the unwrap / index / subtraction sites of the set functions are unreachable and the fuel of
+   the binary search suffices: Ok or Err whenever keyF, the comparison and == answer Ok or Err *)
+Theorem C17_set_functions_no_panic : forall (A K E : Type) (keyf : A -> outcome K E) cmp eqv,
+  (forall a, clean (keyf a)) -> (forall a b, clean (cmp a b)) -> (forall a b, clean (eqv a b)) ->
+  (forall arr, clean (std_uniq keyf eqv arr)) /\ (forall arr, clean (std_set keyf cmp eqv arr)) /\
+  (forall a b, clean (std_set_union keyf cmp a b)) /\ (forall a b, clean (std_set_inter keyf cmp a b)) /\
+  (forall a b, clean (std_set_diff keyf cmp a b)) /\ (forall x arr, clean (std_set_member keyf cmp x arr)) /\
+  (forall arr, clean (std_min_array_idx keyf cmp arr)) /\ (forall arr, clean (std_max_array_idx keyf cmp arr)).
+Proof. exact set_functions_clean. Qed.
+
 (* ================= non-vacuity (wire instance, number keys) ================= *)
 
 (* 70 keys with 5 distinct values: merge and quick paths; the hypotheses of the sort
@@ -250,6 +262,7 @@ Print Assumptions C17_diff_spec.
 Print Assumptions C17_member_spec.
 Print Assumptions C17_minArray_first_min.
 Print Assumptions C17_maxArray_first_max.
+Print Assumptions C17_set_functions_no_panic.
 Print Assumptions C17_nonvacuous_sort.
 Print Assumptions C17_nonvacuous_uniq.
 Print Assumptions C17_nonvacuous_sets.
